@@ -87,7 +87,14 @@ pub fn execute(p: &Program, prefix: &[usize], horizon: usize, on_decision: Optio
     sess.clock.store(T0, Ordering::SeqCst);
     sess.set_flag(F_NO_URING, !p.cfg.uring);
     sess.set_flag(F_FORCE_SYNC, !p.cfg.uring);
-    let sched = Sched::new(prefix.to_vec(), horizon);
+    let mut roles: Vec<&'static str> = Vec::new();
+    if p.cfg.persistent {
+        for _ in 0..p.cfg.workers {
+            roles.push("worker");
+        }
+        roles.push("periodic");
+    }
+    let sched = Sched::new(prefix.to_vec(), horizon, &roles);
     sess.set_sched(Some(sched.clone() as Arc<dyn SchedHooks>));
     let mut sut = match Sut::create_with(p.cfg, "sched", sess.clone()) {
         Ok(s) => s,
